@@ -136,18 +136,31 @@ fn float_len(rng: &mut Rng) -> usize {
 }
 
 /// groups for the float stream: every nested part contains a token (so that the Mean weights of the group sum
-/// to one), lengths with inexact reciprocals, nesting up to depth 5, the product of the lengths on a path varied
-fn gen_tg_float(rng: &mut Rng, depth: usize, budget: usize) -> TokenGroup {
-    if depth >= 5 || budget <= 1 || rng.chance(2, 5) {
+/// to one), sizes with inexact reciprocals; `want` = nesting depth reached on at least one path (the other
+/// children draw their own, smaller or equal), so that three and more factors meet on a path and the order in
+/// which the code multiplies them shows in the last bit
+fn gen_tg_float(rng: &mut Rng, depth: usize, budget: usize, want: usize) -> TokenGroup {
+    if depth >= want || budget <= 1 {
         return TokenGroup::Full(float_len(rng).min(budget.max(1)));
     }
     let n = rng.range(1, 6).min(budget);
-    let mut sub: Vec<TokenGroup> = (0..n).map(|_| gen_tg_float(rng, depth + 1, budget / n)).collect();
+    let deep = rng.below(n);
+    let mut sub: Vec<TokenGroup> = (0..n)
+        .map(|i| {
+            let w = if i == deep { want } else { depth + 1 + rng.below(want - depth) };
+            gen_tg_float(rng, depth + 1, budget / n, w)
+        })
+        .collect();
     if rng.chance(1, 12) {
         let k = rng.below(3);
         sub.push(TokenGroup::Empty(k));
     }
     TokenGroup::Nested(sub)
+}
+
+/// a size whose reciprocal is not a binary32, mostly
+fn odd_len(rng: &mut Rng) -> usize {
+    *rng.pick(&[3usize, 3, 5, 6, 7, 9, 10, 11, 12, 13, 2, 1])
 }
 
 fn gen_mode3(rng: &mut Rng) -> Val {
@@ -158,12 +171,12 @@ fn gen_mode3(rng: &mut Rng) -> Val {
             1 => rng.range(65, 512),
             _ => float_len(rng),
         }),
-        2 => {
+        2 | 3 => {
             // a chain: one token under k nested levels of sizes with inexact reciprocals (many roundings on one path)
             let k = rng.range(1, 10);
-            let mut g = TokenGroup::Full(float_len(rng).min(8));
+            let mut g = TokenGroup::Full(odd_len(rng));
             for _ in 0..k {
-                let n = rng.range(1, 4);
+                let n = odd_len(rng);
                 let mut sub = vec![g];
                 for _ in 1..n {
                     sub.push(TokenGroup::Full(1));
@@ -172,7 +185,10 @@ fn gen_mode3(rng: &mut Rng) -> Val {
             }
             g
         }
-        _ => gen_tg_float(rng, 0, 48),
+        _ => {
+            let want = rng.range(1, 6);
+            gen_tg_float(rng, 0, 96, want)
+        }
     };
     Val::L(vec![Val::I(3), tg_val(&g), Val::b(rng.chance(3, 4))])
 }
@@ -207,7 +223,9 @@ fn gen_mode1(rng: &mut Rng) -> Val {
     for _ in 0..n {
         let k = rng.below(7);
         let fl = rng.chance(1, 3);
-        let groups: Vec<TokenGroup> = (0..k).map(|_| if fl { gen_tg_float(rng, 1, 16) } else { gen_tg(rng, 0) }).collect();
+        let groups: Vec<TokenGroup> = (0..k)
+            .map(|_| if fl { let want = rng.range(1, 5); gen_tg_float(rng, 0, 24, want) } else { gen_tg(rng, 0) })
+            .collect();
         let total: usize = groups.iter().map(|g| g.len()).sum();
         lengths.push(total);
         items.push(Val::L(vec![Val::list(groups.iter(), tg_val), Val::b(all_mean || rng.chance(1, 2))]));
